@@ -58,12 +58,15 @@ func mk(k string, mem, eu, wu, budget int) (vm, func() int) {
 		mvp6_3.VerifSetBudget(budget)
 		return mvp6_3.NewCPU(false, mem, eu, wu), mvp6_3.VerifTicks
 	case "7.0":
+		mvp7_0.VerifEnableC06(vp.N("c06") == 1)
 		mvp7_0.VerifSetBudget(budget)
 		return mvp7_0.NewCPU(false, mem, eu), mvp7_0.VerifTicks
 	case "7.1":
+		mvp7_1.VerifEnableC06(vp.N("c06") == 1)
 		mvp7_1.VerifSetBudget(budget)
 		return mvp7_1.NewCPU(false, mem, eu), mvp7_1.VerifTicks
 	case "8":
+		mvp8_0.VerifEnableC06(vp.N("c06") == 1)
 		mvp8_0.VerifSetBudget(budget)
 		return mvp8_0.NewCPU(false, mem, eu), mvp8_0.VerifTicks
 	}
